@@ -16,7 +16,7 @@ from vf import common
 PROP = "C15"
 
 SHAPES = [(2,), (3,), (1, 3), (2, 2), (2, 3)]
-DTYPES = ["int64", "float64"]
+DTYPES = ["int64", "float64", "mixed"]  # mixed: arguments alternate int64, float64 (the narrower type first)
 REDUCTIONS = ["sum", "prod", "min", "max", "mean", "std", "var"]
 BINARY = {"add": np.add, "subtract": np.subtract, "multiply": np.multiply, "divide": np.divide, "pow": np.power}
 
@@ -24,6 +24,9 @@ BINARY = {"add": np.add, "subtract": np.subtract, "multiply": np.multiply, "divi
 def arr(shape, dtype, k):
     n = int(np.prod(shape))
     base = (np.arange(n) * (k + 2) + 3 * k + 1) % 7 + 1  # small positive distinct-ish integers
+    if dtype == "mixed":
+        a = base.reshape(shape).astype("int64" if k % 2 == 0 else "float64")
+        return a if k % 2 == 0 else a + 0.5  # the float arguments carry a fraction that a cast would lose
     return base.reshape(shape).astype(dtype)
 
 
